@@ -205,6 +205,7 @@ func genCase(t *rapid.T) Case {
 
 // applyExclusions removes the tamperings that are certain to hit an open known finding.
 func applyExclusions(c *Case, x *h.Ctx) {
+	c.Peers = append([]PeerScript{}, c.Peers...) // the caller's case stays as generated
 	for p := range c.Peers {
 		var keep []Act
 		for _, a := range c.Peers[p].Acts {
@@ -417,6 +418,7 @@ func syncOnce(c Case, src *srcChain, srcDir, syncDir string, last bool, x *h.Ctx
 		go sp.run()
 	}
 	finished := sy.wait(time.Duration(budget+20000) * time.Millisecond)
+	exitedAt := time.Now()
 	for _, sp := range peers {
 		sp.stop()
 	}
@@ -467,6 +469,12 @@ func syncOnce(c Case, src *srcChain, srcDir, syncDir string, last bool, x *h.Ctx
 		}
 	}
 	died := false
+	if msg, _ := deathOf(out); msg == "" && finished && sy.exitCode() != 0 && sy.exitCode() != 1 && sy.exitCode() != 2 {
+		// neither a panic nor an exit of the node's own making (the child's FATAL paths, a kill from outside)
+		label("harness:sync-node-exit-%d", sy.exitCode())
+		h.Note("C13", "fastsync", "sync node ended with exit %d: %s", sy.exitCode(), tailLines(out, 5))
+		return
+	}
 	if msg, site := deathOf(out); msg != "" || (finished && sy.exitCode() != 0) {
 		died = true
 		if site == "" {
@@ -494,7 +502,13 @@ func syncOnce(c Case, src *srcChain, srcDir, syncDir string, last bool, x *h.Ctx
 		}
 		return false
 	}
-	for hgt, b := range seen {
+	var seenHeights []int64
+	for hgt := range seen {
+		seenHeights = append(seenHeights, hgt)
+	}
+	sort.Slice(seenHeights, func(i, j int) bool { return seenHeights[i] < seenHeights[j] })
+	for _, hgt := range seenHeights {
+		b := seen[hgt]
 		if check("seen while running", hgt, b.Hash, b.PartsHash, b.Parts) {
 			return
 		}
@@ -523,6 +537,9 @@ func syncOnce(c Case, src *srcChain, srcDir, syncDir string, last bool, x *h.Ctx
 			}
 			if check("in the store after exit", hgt, hex.EncodeToString(m.Hash), hex.EncodeToString(m.PartsHeader.Hash), m.PartsHeader.Total) {
 				return
+			}
+			if hgt > storeHeight {
+				continue // a block whose parts were still being written when the process ended
 			}
 			// the stored parts really are the block
 			if b := st.LoadBlock(hgt); b == nil || !strings.EqualFold(hex.EncodeToString(b.Hash()), hex.EncodeToString(src.metas[hgt].Hash)) {
@@ -553,6 +570,15 @@ func syncOnce(c Case, src *srcChain, srcDir, syncDir string, last bool, x *h.Ctx
 		label("sync-ms:<%d", ((rep.ElapsedMs-1400)/500+1)*500)
 	} else {
 		label("not-synced-in-budget")
+		// is the pool routine still alive? it logs "IsCaughtUp" once a second until it switches
+		if lb, _ := os.ReadFile(filepath.Join(syncDir, "log")); strings.Contains(string(lb), "Time to switch to consensus") {
+			// every peer that claimed more was gone or evicted when the pool asked itself
+			label("not-synced:switched-to-consensus-early")
+		} else if gap, ok := poolSilence(syncDir, exitedAt); ok && gap > 4*time.Second {
+			label("not-synced:pool-routine-silent")
+			cb, _ := json.Marshal(c)
+			h.Note("C13", "fastsync", "pool routine silent for %v before the node was stopped at height %d of %d; case %s", gap, synced, target, cb)
+		}
 		if !c.tampers() {
 			if fail("honest-sync-stalls", "with honest peers only the syncing node reached height %d of %d within %d ms\n%s\n--- output tail ---\n%s", synced, target, budget, ctx, tailLines(out, 15)) {
 				return
@@ -602,6 +628,36 @@ func syncOnce(c Case, src *srcChain, srcDir, syncDir string, last bool, x *h.Ctx
 	}
 	nontrivial = nt
 	return
+}
+
+// poolSilence returns the time between the last "IsCaughtUp" line of the node's log (the pool
+// routine writes one per second while it is syncing) and the end of the process.
+func poolSilence(syncDir string, end time.Time) (time.Duration, bool) {
+	b, err := os.ReadFile(filepath.Join(syncDir, "log"))
+	if err != nil {
+		return 0, false
+	}
+	var lastTick time.Time
+	for _, l := range strings.Split(string(b), "\n") {
+		var e struct {
+			Time string `json:"time"`
+			Msg  string `json:"msg"`
+		}
+		if json.Unmarshal([]byte(l), &e) != nil {
+			continue
+		}
+		t, err := time.Parse(time.RFC3339Nano, e.Time)
+		if err != nil {
+			continue
+		}
+		if strings.HasPrefix(e.Msg, "IsCaughtUp") || strings.Contains(e.Msg, "Blockpool has no peers") {
+			lastTick = t
+		}
+	}
+	if lastTick.IsZero() {
+		return 0, false
+	}
+	return end.Sub(lastTick), true
 }
 
 func sizesOf(s *srcChain) []int {
